@@ -39,7 +39,7 @@ func (w *fileWriter) file(file *model.File) error {
 
 	for _, imp := range file.Imports {
 		pkg := importPackage(imp)
-		w.linef(`"%v"`, pkg)
+		w.linef(`%v "%v"`, imp.Name, pkg)
 	}
 	w.line(")")
 	w.line()
